@@ -111,7 +111,7 @@ def main(tier, seed):
         rep.max_paths = 30000
         rep.time_budget = 500
     else:
-        confs = [(3, 1, 1, 6), (3, 2, 2, 6), (4, 2, 2, 7), (4, 3, 3, 7), (4, 3, 2, 7), (5, 2, 2, 8), (5, 3, 3, 8), (6, 3, 3, 8), (6, 3, 1, 8)]
+        confs = [(3, 1, 1, 5), (4, 2, 2, 6), (4, 2, 1, 5), (5, 3, 3, 6), (4, 3, 2, 6), (6, 3, 3, 7), (6, 2, 2, 7)]
         rep.max_paths = 400000
         rep.time_budget = 1500
     rep.r.bounds = {"(capacity N, storage horizon h, sampling horizon hs<=h, max adds K)": [list(c) for c in confs],
@@ -124,7 +124,7 @@ def main(tier, seed):
         for cls in ("SubtrajectoryReplayBuffer", "SubtrajectoryReplayBufferPER"):
             if tier == "quick" and cls.endswith("PER") and N > 4:
                 continue
-            rep.run(f"{cls}[N={N},h={h},hs={hs},K<={kmax}]", program(cls, N, h, hs, kmax, tier != "quick"),
+            rep.run(f"{cls}[N={N},h={h},hs={hs},K<={kmax}]", program(cls, N, h, hs, kmax, tier != "quick" and kmax <= 5),
                     fn=f"{cls}.add_sample/sample_batch/_sample_idx", site_of=lambda label, cls=cls: f"{cls}:{label}")
     return rep.finish()
 
